@@ -357,7 +357,7 @@ TRUSTED_BASE = [
 def run_check(plugin, tier, seed, replay=None):
     t0 = time.time()
     prop = plugin.ID
-    rundir = os.path.join(BUILD, "run", prop)
+    rundir = os.path.join(BUILD, "run", prop + ("" if tier == "quick" else "-" + tier))
     shutil.rmtree(rundir, ignore_errors=True)
     os.makedirs(rundir, exist_ok=True)
     os.makedirs(os.path.join(ROOT, "evidence"), exist_ok=True)
